@@ -355,7 +355,7 @@ class Path:
         # exhausted budget counts as "feasible" / "not entailed" (always the weaker
         # answer), independent of machine load
         self.solver.set('rlimit', FEAS_RLIMIT)
-        self.solver.set('random_seed', engine.seed)
+        self.solver.set('random_seed', 0)     # proofs never depend on VERIF_SEED (it seeds the sampling only)
         # feasibility / entailment queries run without array extensionality: cheaper,
         # and only ever weaker (more paths feasible, fewer facts entailed); proof
         # obligations are discharged by a fresh solver with the default theory
